@@ -34,9 +34,10 @@ def handle (op : String) (args : List String) : Option String :=
       let t ← (parseRats? tt).bind V3.ofList
       let c ← rest.head?.bind parseRat?
       if x.length != y.length || x.isEmpty then some ("0 0 0 0 0 0 0 " ++ toString (refusalClass x y)) else
+      -- the six conjuncts of `umeCert` (its value is their conjunction, by definition)
       let r := [certOrtho eps R, certDet eps R, certT eps x y R t c, certSym eps x y R, certPsd eps x y R,
-                certScale eps ws x y R c, umeCert eps ws x y R t c]
-      some (" ".intercalate (r.map b) ++ " " ++ toString (refusalClass x y))
+                certScale eps ws x y R c]
+      some (" ".intercalate ((r ++ [r.all id]).map b) ++ " " ++ toString (refusalClass x y))
   | "refuse", rest => do
       let (x, rest) ← readPoints rest
       let (y, _) ← readPoints rest
